@@ -255,6 +255,15 @@ let handle (line : string) : unit =
      pr ",\"pending\":"; plist pgate r.r_pending;
      pr ",\"fuel\":"; pbool r.r_fuel;
      pr "}"
+   | S (A "paths" :: f) ->
+     let (_, p) = prog_of f in
+     let wc = bool_ (match field "wc" f with [v] -> v | _ -> failwith "wc") in
+     let paction = function
+       | AStep -> pr "[\"s\"]" | AQuiesce -> pr "[\"q\"]" | ACancel -> pr "[\"c\",0]"
+       | AGate g -> pr "[\"g\","; pgate g; pr "]" in
+     (match paths_case p wc with
+      | None -> pr "{\"paths\":null}"
+      | Some ps -> pr "{\"paths\":"; plist (plist paction) ps; pr "}")
    | S (A "eval" :: f) ->
      let nodes = L.map node_ (field "nodes" f) in
      let input = L.map kv_ (field "input" f) in
